@@ -170,6 +170,12 @@ let dispatch (op : string) (x : v) : v =
          of_opt (of_list of_fitres3)
            (M.fit3_pkg lg ln10 pen tab vv wavs (to_q lo) (to_q hi) raws (to_list to_q thetas) (to_list to_q ds) (to_list to_q logds)
               (to_list (to_list (to_list to_pt)) models))]
+  | "fit3_pkg_masked", [tab; vv; wavs; lo; hi; raws; thetas; ds; logds; models; exts] ->
+      (* remove_resolved=True: the implementation's own `extended` array [model][distance][band] is an input *)
+      let raws = to_list to_raw raws and tab = to_list to_pt tab and vv = to_q vv and wavs = to_list to_q wavs in
+      of_opt (of_list of_fitres3)
+        (M.fit3_pkg_masked lg ln10 pen tab vv wavs (to_q lo) (to_q hi) raws (to_list to_q thetas) (to_list to_q ds) (to_list to_q logds)
+           (to_list (to_list (to_list to_pt)) models) (to_list (to_list (to_list to_bool)) exts))
   | "fit3_all", [lo; hi; raws; alaw; thetas; ds; logds; models] ->
       let raws = to_list to_raw raws and alaw = to_list to_q alaw in
       L [of_q (M.fit3_m11 lg ln10 raws alaw);
